@@ -39,9 +39,16 @@ Theorem C14_import_recursion_terminates :
     import_run true (S (length fs)) fs root root_imports <> None.
 Proof. exact terminates. Qed.
 
-(* full statement for the whole of d2ir: every expansion of an imported file goes through the stack test.
-   Refuted for the pinned code: d2ir.peekImport (asked by IsContainer for `**` edge ends and `&leaf`)
-   expands without the test; on index.d2 = `c: {...@index}` it exhausts every fuel *)
+(* every expansion of an imported file goes through a membership test: besides __import there is
+   d2ir.peekImport (asked by IsContainer for `**` edge ends and `&leaf`), which since commit 528a6569a
+   remembers the paths it is peeking into.  It terminates from any such set, for every file set *)
+Theorem C14_peek_import_terminates :
+  forall (fs : fileset) (root : str) (root_imports : list imp) peeking p errored,
+    import_peek (S (length fs)) fs root root_imports peeking p errored <> None.
+Proof. exact peek_terminates. Qed.
+
+(* HISTORICAL: before 528a6569a peekImport expanded without any test; on index.d2 = `c: {...@index}` it
+   exhausts every fuel *)
 Theorem C14_peek_import_refuted :
   forall fuel stack,
     import_visit false fuel self_fs self_import_root (cons self_import nil) stack self_import_root false = None.
@@ -93,6 +100,7 @@ Print Assumptions C14_cycle_always_reported.
 Print Assumptions C14_reported_chain_shape.
 Print Assumptions C14_import_depth_bounded.
 Print Assumptions C14_import_recursion_terminates.
+Print Assumptions C14_peek_import_terminates.
 Print Assumptions C14_peek_import_refuted.
 Print Assumptions C14_import_equiv_inline_partial.
 Print Assumptions C14_spread_at_top_is_inlining.
